@@ -20,7 +20,8 @@ CONSTANTS Variants,     \* vote-list variants per parent (branching)
           MaxLen,       \* longest path explored below R
           MaxHandles,   \* handles given out in a behaviour
           MaxOps,
-          Misuse        \* TRUE: also explore Dispose of an already disposed handle (contract violation by the caller)
+          Misuse,       \* TRUE: also explore Dispose of an already disposed handle (contract violation by the caller)
+          Race          \* TRUE: also explore a parent given back while a request on it is still executing
 
 Root == <<>>
 Paths == UNION {[1..k -> Variants] : k \in 0..MaxLen}
@@ -76,6 +77,16 @@ ExtendCancelled(op, p, v) ==
   /\ ExtendRes(p) = "ok" /\ Len(p) < MaxLen
   /\ UNCHANGED <<present, fin, chain, hs, waits, created>>
   /\ Log([op |-> op, p |-> p, v |-> v, res |-> "cancelled", h |-> 0])
+\* a request on candidate p is accepted, and before it completes the only holder h of p disposes it, so p leaves
+\* the map: the request must fail or stay silent (never crash); the tree is as after the Dispose alone
+ExtendRaced(p, v, h) ==
+  /\ Race /\ ExtendRes(p) = "ok" /\ Len(p) < MaxLen /\ p # fin
+  /\ hs[h].live /\ hs[h].node = p
+  /\ p \notin Collapse(present, [hs EXCEPT ![h].live = FALSE], fin)
+  /\ hs' = [hs EXCEPT ![h].live = FALSE]
+  /\ present' = Collapse(present, hs', fin)
+  /\ UNCHANGED <<fin, chain, waits, created>>
+  /\ Log([op |-> "raced", p |-> p, v |-> v, h |-> h, res |-> "dropped"])
 \* Cancel of a request that has already called back: returns false, nothing changes
 CancelLate(h) ==
   /\ UNCHANGED <<present, fin, chain, hs, waits, created>>
@@ -130,6 +141,7 @@ WaitFor(k) == /\ Len(waits) < 2
 Can == Len(hist) < MaxOps
 Next == \/ Can /\ \E op \in {"propose", "import"}, p \in Paths, v \in Variants : p \in created /\ Extend(op, p, v)
         \/ Can /\ \E op \in {"propose", "import"}, p \in Paths, v \in Variants : p \in created /\ ExtendCancelled(op, p, v)
+        \/ Can /\ \E p \in Paths, v \in Variants, h \in Handles : p \in created /\ ExtendRaced(p, v, h)
         \/ Can /\ \E h \in Handles : Finalize(h)
         \/ Can /\ \E h \in Handles : Dispose(h)
         \/ Can /\ \E h \in Handles : DisposeAgain(h)
